@@ -1,0 +1,22 @@
+//go:build verif
+
+package queue
+
+// VerifSetConsumerGroupWrapper makes every consumer group that a fan-out queue opens from now on
+// pass through wrap before it is put into the queue's group map (nil restores the production
+// constructor), so that the verification harness can own interleaving points at the calls the
+// fan-out queue makes on its groups (e.g. before / after SetSeq inside SetAppendedSeq).
+// Build tag verif only; no behaviour change while unused.
+func VerifSetConsumerGroupWrapper(wrap func(ConsumerGroup) ConsumerGroup) {
+	if wrap == nil {
+		newConsumerGroupFunc = NewConsumerGroup
+		return
+	}
+	newConsumerGroupFunc = func(parent, fanOutPath string, q FanOutQueue) (ConsumerGroup, error) {
+		cg, err := NewConsumerGroup(parent, fanOutPath, q)
+		if err != nil {
+			return nil, err
+		}
+		return wrap(cg), nil
+	}
+}
